@@ -256,3 +256,39 @@ def r5(case, rec):
     if d:
         raise Violation('%s on a spectrum that was used, then edited in place (%s), differs from the same call on a freshly built spectrum '
                         'with the same content: %s' % (case['which'], case['edit'], d), op=case['which'])
+
+
+@st.composite
+def export_case(draw):
+    from harness import programs as P
+    prog = draw(P.program(max_pops=4, max_steps=4, allow_ancient=False))
+    prog['pts'] = min(prog['pts'], 10)
+    return dict(prog=prog, every=draw(st.integers(1, 2)), gt=draw(st.sampled_from([None, 25.0])))
+
+
+@REG.relation('R6-repeated-export', strategy=export_case, quick=(160, 16), thorough=(3000, 16))
+def r6(case, rec):
+    """Demes.output() of a model that was just run returns the same graph whatever exports were made before it: exporting twice
+    gives the same graph twice, and an export with deme_mapping (renamed demes) in between changes nothing in a later plain export."""
+    import dadi
+    from harness import programs as P
+    from harness.core import dadi_call
+    prog = case['prog']
+    f = P.features(prog)
+    rec.case(case, f['max_pops'] >= 2, ['pops=%d' % f['max_pops'], 'years' if case['gt'] else 'generations'])
+    kw = dict(Nref=prog['N0'], generation_time=case['gt'])
+    with dadi_call('native program, then Demes.output three times'):
+        P.run_native(prog)
+        first = dadi.Demes.output(**kw).asdict()
+        again = dadi.Demes.output(**kw).asdict()
+        ids = [d['name'] for d in first['demes']]
+        mapping = {'renamed_%d' % i: [ids[i]] for i in range(0, len(ids), case['every'])}
+        mapped = dadi.Demes.output(deme_mapping=mapping, **kw).asdict()
+        plain = dadi.Demes.output(**kw).asdict()
+    d = O.same(O.canon(again), O.canon(first), 1e-12)
+    require(not d, 'a second Demes.output() of the same model differs from the first: %s' % d, op='export')
+    names = [x['name'] for x in mapped['demes']]
+    require(all(('renamed_%d' % i) in names for i in range(0, len(ids), case['every'])), 'deme_mapping did not rename the demes: %r' % names, op='export')
+    d = O.same(O.canon(plain), O.canon(first), 1e-12)
+    require(not d, 'Demes.output() after an export with deme_mapping differs from the export made before it (deme names now %r, before %r): %s'
+            % ([x['name'] for x in plain['demes']], ids, d), op='export-after-mapping')
